@@ -817,6 +817,9 @@ class FakeSession:
                     w.pending.remove(req)
                 if isinstance(req.outcome, Stream):
                     req.outcome.open = False
+            elif isinstance(req.outcome, Stream):
+                # answered in the very step in which the client was cancelled: the response never reached it, its connection is gone
+                req.outcome.open = False
             raise
 
 
